@@ -54,6 +54,7 @@ def judge(case, ctx, ds, successor):
     scheme = libx.mk_scheme(sch)
     elems = ref.universe(ds)
     n = len(elems)
+    ctx.unit()
     sub = {"ds": ds, "scheme": sch}
     if successor:
         sub["successor_of"] = case["successor_of"]
